@@ -299,7 +299,11 @@ fn part_b(sh: &mut Shard, rng: &mut Rng, work: &Path, runs: usize) {
         let base = work.join(format!("c19b-{}-{}-{run}", sh.args.shard, std::process::id()));
         let _ = std::fs::remove_dir_all(&base);
         let root = base.join("project");
-        let files: Vec<String> = (0..nfiles).map(|i| format!("f{i}.st")).collect();
+        // file names that have directory names as proper string prefixes (pump.st / pump, lib_io/x.st / lib), so that
+        // bystander operations on those directories must not disturb the tracked files
+        let prefixy = rng.chance(1, 2);
+        let files: Vec<String> = if prefixy { ["pump.st", "lib_io/x.st"][..nfiles].iter().map(|s| s.to_string()).collect() } else { (0..nfiles).map(|i| format!("f{i}.st")).collect() };
+        let bystander_dirs: Vec<&str> = if prefixy { vec!["pump", "pu", "lib", "lib_i", "other"] } else { vec!["f0", "f", "f1.s", "other"] };
         for f in &files {
             write(&root.join(f), "(* init *)\n");
         }
@@ -332,15 +336,25 @@ fn part_b(sh: &mut Shard, rng: &mut Rng, work: &Path, runs: usize) {
             handles.push(std::thread::spawn(move || {
                 let tok = st.create_session(IdeRole::Editor).expect("session").token;
                 let mut ctr = 0u64;
+                // what this client last saw per file: an editor keeps its version until it saves again
+                let mut held: Vec<Option<(u64, String)>> = vec![None; files.len()];
                 for _ in 0..m {
                     let fi = r.usize(files.len());
-                    let Ok(snap) = st.open_source(&tok, &files[fi]) else { continue };
+                    // a third of the writes reuse the (version, content) the client already holds instead of re-opening
+                    let snap = match (&held[fi], r.chance(1, 3)) {
+                        (Some((v, c)), true) => Held { version: *v, content: c.clone() },
+                        _ => {
+                            let Ok(s) = st.open_source(&tok, &files[fi]) else { continue };
+                            Held { version: s.version, content: s.content }
+                        }
+                    };
                     if r.chance(1, 4) {
                         std::thread::yield_now();
                     }
                     ctr += 1;
                     let content = format!("(* w{c}-{ctr} *)\n");
                     let call = clockv.fetch_add(1, Ordering::SeqCst);
+                    let (snap_version, snap_content) = (snap.version, snap.content.clone());
                     let res = st.apply_source(&tok, &files[fi], snap.version, content.clone(), true);
                     let ret = clockv.fetch_add(1, Ordering::SeqCst);
                     log.lock().unwrap().push(Wr {
@@ -351,17 +365,59 @@ fn part_b(sh: &mut Shard, rng: &mut Rng, work: &Path, runs: usize) {
                         base_version: snap.version,
                         base_content: snap.content,
                         content,
-                        result: res.map(|w| w.version).map_err(|e| format!("{:?}", e.kind())),
+                        result: res.as_ref().map(|w| w.version).map_err(|e| format!("{:?}", e.kind())),
                     });
+                    held[fi] = match res {
+                        Ok(w) => Some((w.version, format!("(* w{c}-{ctr} *)\n"))),
+                        Err(_) => Some((snap_version, snap_content)),
+                    };
                 }
             }));
         }
+        // bystander: an editor doing unrelated file operations (never on the tracked files themselves)
+        let by_stop = Arc::new(std::sync::atomic::AtomicBool::new(false));
+        let by_ops = Arc::new(AtomicU64::new(0));
+        let bystander = {
+            let (st, by_stop, by_ops) = (st.clone(), by_stop.clone(), by_ops.clone());
+            let dirs: Vec<String> = bystander_dirs.iter().map(|s| s.to_string()).collect();
+            let mut r = Rng::new(seed ^ 0xB157);
+            std::thread::spawn(move || {
+                let tok = st.create_session(IdeRole::Editor).expect("session").token;
+                while !by_stop.load(Ordering::SeqCst) {
+                    let d = r.pick(&dirs).clone();
+                    match r.below(7) {
+                        0 | 1 => {
+                            let _ = st.create_entry(&tok, &d, true, None, true);
+                            let _ = st.create_entry(&tok, &format!("{d}/z.st"), false, Some("(* z *)\n".into()), true);
+                        }
+                        2 | 3 => {
+                            let _ = st.delete_entry(&tok, &d, true);
+                        }
+                        4 => {
+                            let _ = st.create_entry(&tok, "unrelated.st", false, Some("(* u *)\n".into()), true);
+                            let _ = st.rename_entry(&tok, "unrelated.st", "unrelated2.st", true);
+                            let _ = st.delete_entry(&tok, "unrelated2.st", true);
+                        }
+                        5 => {
+                            let _ = st.list_sources(&tok);
+                        }
+                        _ => std::thread::yield_now(),
+                    }
+                    by_ops.fetch_add(1, Ordering::Relaxed);
+                }
+            })
+        };
         let mut joined = true;
         for h in handles {
             if h.join().is_err() {
                 joined = false;
             }
         }
+        by_stop.store(true, Ordering::SeqCst);
+        if bystander.join().is_err() {
+            joined = false;
+        }
+        sh.count("B_bystander_operations", by_ops.load(Ordering::Relaxed));
         trust_runtime::verif::set_failpoint(None);
         if !joined {
             sh.violation("B|panic-in-writer", "a writer thread panicked", case.clone());
@@ -422,6 +478,11 @@ fn part_b(sh: &mut Shard, rng: &mut Rng, work: &Path, runs: usize) {
         let _ = std::fs::remove_dir_all(&base);
         sh.end();
     }
+}
+
+struct Held {
+    version: u64,
+    content: String,
 }
 
 fn render(h: &[Wr], file: usize) -> Vec<J> {
